@@ -39,6 +39,11 @@ type deferred struct {
 	pos  string
 }
 
+type namedVal struct {
+	v      ssa.Value
+	isAddr bool
+}
+
 type Frame struct {
 	fn      *ssa.Function
 	vals    map[ssa.Value]Val
@@ -48,6 +53,7 @@ type Frame struct {
 	defers  []deferred
 	bind    []Val // free variable bindings (closures)
 	loops   []*activeLoop
+	names   map[string]namedVal // source identifiers seen in DebugRef instructions
 	callPos *ssa.Call // call instruction in the parent frame being inlined (nil for top)
 	isDefer bool      // inlined as a deferred call: result discarded, resume defers
 	depth   int
@@ -58,6 +64,10 @@ func (f *Frame) clone() *Frame {
 	g.vals = make(map[ssa.Value]Val, len(f.vals))
 	for k, v := range f.vals {
 		g.vals[k] = v
+	}
+	g.names = make(map[string]namedVal, len(f.names))
+	for k, v := range f.names {
+		g.names[k] = v
 	}
 	g.defers = append([]deferred(nil), f.defers...)
 	g.loops = append([]*activeLoop(nil), f.loops...)
@@ -222,6 +232,7 @@ type Exec struct {
 	entryDecr    string
 	entryTargets map[string][]string
 	entryWhole   map[string]bool
+	ptrArrays    map[string]string // heap arrays holding references: name -> "ptr" | "slice"
 }
 
 type locFn struct {
